@@ -300,13 +300,27 @@ impl Model {
         let mut sim = self.clone();
         let mut seen_g = BTreeSet::new();
         let mut seen_h = BTreeSet::new();
-        if !plan_rec(&mut sim, h, left, right, &mut seen_g, &mut seen_h) {
+        let mut evs = vec![];
+        if !plan_rec(&mut sim, h, left, right, &mut seen_g, &mut seen_h, &mut evs) {
             return None;
         }
         if seen_h.len() != h.verts.len() {
             return None; // not everything reachable from right: C12's business
         }
         Some(sim)
+    }
+
+    /// The primitive calls a tree merge stands for in the canonical order (depth-first, the right
+    /// tree's edge order, ids by the documented allocator policy). Used only as the as-if
+    /// reference when the walk over the real result could not attribute the additions.
+    pub fn canonical_merge_events(&self, h: &Model, left: usize, right: usize) -> Option<Vec<Prim>> {
+        let mut sim = self.clone();
+        let (mut sg, mut sh, mut evs) = (BTreeSet::new(), BTreeSet::new(), vec![]);
+        if plan_rec(&mut sim, h, left, right, &mut sg, &mut sh, &mut evs) {
+            Some(evs)
+        } else {
+            None
+        }
     }
 
     /// Apply a merge to the model taking the ids of new vertices from the real graph `g`
@@ -540,6 +554,7 @@ fn plan_rec(
     r: usize,
     seen_g: &mut BTreeSet<usize>,
     seen_h: &mut BTreeSet<usize>,
+    evs: &mut Vec<Prim>,
 ) -> bool {
     if !sim.present(l) || !seen_g.insert(l) || !seen_h.insert(r) {
         return false;
@@ -547,6 +562,7 @@ fn plan_rec(
     let hv = &h.verts[&r];
     if let Some(d) = &hv.data {
         sim.put(l, d);
+        evs.push(Prim::Put(l, d.clone()));
     }
     for (a, to) in &hv.edges {
         if !h.present(*to) {
@@ -556,14 +572,17 @@ fn plan_rec(
             t
         } else {
             let Some(id) = sim.next_id() else { return false };
+            evs.push(Prim::NextId(id));
             sim.add(id);
+            evs.push(Prim::Add(id));
             if !sim.legal_bind(l, id, *a) {
                 return false;
             }
             sim.bind(l, id, *a);
+            evs.push(Prim::Bind(l, id, *a));
             id
         };
-        if !plan_rec(sim, h, t, *to, seen_g, seen_h) {
+        if !plan_rec(sim, h, t, *to, seen_g, seen_h, evs) {
             return false;
         }
     }
